@@ -6,6 +6,7 @@ import (
 	"fmt"
 	"math/big"
 	"regexp"
+	"sort"
 	"strings"
 
 	"github.com/consensys/gnark/backend/witness"
@@ -766,7 +767,7 @@ func nemesisRun(w *Worker, tape *simrt.Tape, prop string, cases []*gcase, fields
 		}
 		if msg != "" {
 			// describe the altered answers
-			for idx := range n.plan {
+			for _, idx := range sortedPlan(n.plan) {
 				if idx < len(n.calls) && idx < len(base.calls) {
 					msg += fmt.Sprintf("\ncall %d = %s: honest answer %s, faulted answer %s", idx, n.calls[idx].Name, shortInts(base.calls[idx].Out), shortInts(n.calls[idx].Out))
 				}
@@ -790,6 +791,15 @@ func nemesisRun(w *Worker, tape *simrt.Tape, prop string, cases []*gcase, fields
 		o.Sample = map[string]any{"case": o.Desc, "hint_calls": ncalls, "faulty_plans": nfaults}
 	}
 	return o
+}
+
+func sortedPlan[T any](m map[int]T) []int {
+	var l []int
+	for k := range m {
+		l = append(l, k)
+	}
+	sort.Ints(l)
+	return l
 }
 
 // diffProbes describes the first difference between two sets of probed values ("" if equal).
